@@ -205,7 +205,7 @@ func (w *wrap) Boot() error {
 // hibernation directory holds temp files (so some branch sleeps on disk) it removes / truncates them
 
 type tamperSpec struct {
-	mode string // remove | trunc0 | trunc1 | half | minus1 | same
+	mode string // remove | trunc0 | trunc1 | quarter | half | minus9 | minus4 | minus2 | minus1 | same
 	skip int    // number of opportunities to let pass
 }
 
@@ -268,6 +268,14 @@ func (t *tamperItem) Consume(deps map[string]interface{}) (map[string]interface{
 				nl = size / 2
 			case "minus1":
 				nl = size - 1
+			case "minus2":
+				nl = size - 2
+			case "minus4":
+				nl = size - 4
+			case "minus9":
+				nl = size - 9
+			case "quarter":
+				nl = size / 4
 			case "same":
 				nl = size
 			}
@@ -709,14 +717,15 @@ func main() {
 		h, G, S := genHist(c, maxCommits)
 		// thresholds: 0, 1, around the arena sizes met, huge
 		seen := sizesSeen(h, G, S, 1)
-		thrs := []int{0, 1, 1 << 30}
+		// (the sizes met depend on the plan, which the planner does not choose deterministically; the
+		// number of random draws and of cases does not depend on them)
+		pick := c.Rng.Intn(1 << 20)
+		s, m := 2, 3
 		if len(seen) > 0 {
-			s := seen[c.Rng.Intn(len(seen))]
-			thrs = append(thrs, s, s+1)
-			if m := seen[len(seen)-1]; m != s {
-				thrs = append(thrs, m)
-			}
+			s = seen[pick%len(seen)]
+			m = seen[len(seen)-1]
 		}
+		thrs := []int{0, 1, s, s + 1, m, 1 << 30}
 		for dist := 1; dist <= 6; dist++ {
 			for _, thr := range thrs {
 				for _, disk := range []bool{false, true} {
@@ -729,13 +738,13 @@ func main() {
 		// faults
 		for _, f := range []string{"nodir", "filedir", "rodir"} {
 			dist := 1 + c.Rng.Intn(6)
-			thr := thrs[c.Rng.Intn(len(thrs))]
+			thr := []int{0, 1, s, thrs[c.Rng.Intn(len(thrs))]}[c.Rng.Intn(4)]
 			emitCase(c, caseIn{"dirfault", h, G, S, runCfg{dist: dist, thr: thr, disk: true, fault: f, wrap: c.Rng.Intn(3) != 0}})
 		}
-		for _, mode := range []string{"remove", "trunc0", "trunc1", "half", "minus1", "same"} {
+		for _, mode := range []string{"remove", "trunc0", "trunc1", "quarter", "half", "minus9", "minus4", "minus2", "minus1", "same"} {
 			for k := 0; k < 2; k++ {
 				dist := 1 + c.Rng.Intn(4)
-				thr := []int{0, 1, thrs[c.Rng.Intn(len(thrs))]}[c.Rng.Intn(3)]
+				thr := []int{0, 0, 1, s, thrs[c.Rng.Intn(len(thrs))]}[c.Rng.Intn(5)]
 				emitCase(c, caseIn{"tamper", h, G, S, runCfg{dist: dist, thr: thr, disk: true, fault: "tamper",
 					tamper: &tamperSpec{mode: mode, skip: k * c.Rng.Intn(4)}, wrap: c.Rng.Intn(3) != 0}})
 			}
